@@ -37,14 +37,16 @@ Definition obs_match (strict : bool) (now : Z) (m i : obs) : bool :=
   | Out (OErr a), Out (OErr b) => err_match strict a b
   | Out (OTokens a), Out (OTokens b) =>
       andb (ideq (tr_at a) (tr_at b)) (andb (ideq (tr_rt a) (tr_rt b)) (andb (Bool.eqb (tr_idt a) (tr_idt b))
-      (andb (seqb (tr_scope a) (tr_scope b)) (Bool.eqb (tr_dpop a) (tr_dpop b)))))
+      (andb (seqb (tr_scope a) (tr_scope b)) (andb (Bool.eqb (tr_dpop a) (tr_dpop b))
+      (andb (res_eqb (tr_res a) (tr_res b)) (res_eqb (tr_aud a) (tr_aud b)))))))
   | Out (OPar a), Out (OPar b) => ideq a b
   | Out (OCiba a x), Out (OCiba b y) => andb (ideq a b) (Bool.eqb x y)
   | Out (OIntro a), Out (OIntro b) =>
       if negb (in_active a) then negb (in_active b) else
       andb (in_active b) (andb (Bool.eqb (in_refresh a) (in_refresh b)) (andb (seqb (in_scope a) (in_scope b))
       (andb (ideq (in_client a) (in_client b)) (andb (seqb (in_sub a) (in_sub b))
-      (andb (near (in_exp a - now) (in_exp b)) (andb (ideq (in_jkt a) (in_jkt b)) (ideq (in_x5t a) (in_x5t b))))))))
+      (andb (near (in_exp a - now) (in_exp b)) (andb (ideq (in_jkt a) (in_jkt b)) (andb (ideq (in_x5t a) (in_x5t b))
+      (res_eqb (in_aud a) (in_aud b)))))))))
   | Out OOk, Out OOk => true
   | Out (OUserInfo a), Out (OUserInfo b) => seqb a b
   | Out (ONav m1 t1 n1), Out (ONav m2 t2 n2) =>
